@@ -141,11 +141,14 @@ PROPS["C16"] = {
     "bin_build": extras.build_tantivy,
     "nontrivial": lambda line, out: out.startswith("ok ") or (line.startswith("N ") and len(out) > 1),
     "rule": "normaliser: ALL 1,112,064 Unicode scalar values (in 272 chunks) through the real filter and the regenerated table, with "
-            "character-count and idempotence oracles; token stream: 120 (quick) / 3000 (thorough) random models x 6-8 texts (pattern "
+            "character-count, idempotence and character-wise oracles; every ordered pair over the characters the filter touches, the half-width "
+            "katakana block, sound marks and combining marks, plus 2000 (quick) / 20000 (thorough) random strings over them; the live table is "
+            "compared with the pinned table (corpus/C16/fullwidth.pinned); token stream: 120 (quick) / 3000 (thorough) random models x 6-8 texts (pattern "
             "texts and units such as half-width kana, CR/LF/CRLF, flags, ZWJ, combining marks, full-width variants; incl. the empty "
             "text and a NUL text) x wsconst strings over {D,R,H,T,K,O,G} (all strings of length <=2 on one model, random up to "
             "length 4); non-trivial = distinct case that produced tokens / a normalised string",
     "scopes": {"quick": "all Unicode scalar values; all wsconst strings len<=2 on one model", "thorough": "same"},
+    "extras": [extras.normaliser_table],
     "assumptions": ["tantivy's TextAnalyzer plumbing is not modelled (the harness drives Tokenizer::token_stream directly)",
                     "the grapheme segmentation of the normalised text is an input of the model"],
 }
